@@ -27,6 +27,7 @@ LEVEL_TEXT = (
     " Added: a chain of consumers behind one output of a two-output surrogate in all 120 orders, and chains of "
     "60-320 (thorough 700) components in four declaration orders, closed to a cycle, or with one missing name. "
     ' Edits: every single edit and every ordered pair of edits from {valid shortcut, missing name, cycle, self-loop, cycle through a rate} applied to an already evaluated or a cold model in four declaration orders must give the outcome of a model declared that way.'
+    ' Also (quick): every acyclic graph on 4 components in every declaration order; in-tree and fan shapes for 4-6 components.'
 )
 LEVEL_NOTE = "trusted: mc/refeval.py, graph analysis in this module; prime-weighted affine node functions make any stale or mis-ordered input visible"
 RULE = (
